@@ -1,7 +1,8 @@
 ID = 'C01'
 TITLE = 'Edit primitives apply exactly the requested string edit and nothing else'
 CONTRACT_MODULES = ['contracts.utils_c', 'contracts.ersatz_c']
-FUNCTIONS = ['tangermeme.ersatz.substitute', 'tangermeme.ersatz.insert', 'tangermeme.ersatz.delete']
+FUNCTIONS = ['tangermeme.ersatz.substitute', 'tangermeme.ersatz.insert', 'tangermeme.ersatz.delete',
+             'tangermeme.ersatz.multisubstitute', 'tangermeme.ersatz.randomize']
 BOUNDED = 'bounded.C01'
 BOUNDED_BUDGET = {'quick': 60, 'thorough': 900}
 LEVEL = 'proof'
@@ -9,6 +10,6 @@ EXPLANATION = ("three-sided contracts (exact edit / raises-iff / acceptance / on
                "ersatz functions, every obligation generated from the current AST and discharged by z3 for all tensor sizes, "
                "alphabet sizes and integer positions; bounded layer replays the same contracts on the real functions")
 ASSUMPTIONS = ["utils._validate_input: assumed call-site contract (bounded conformance, exhaustive on small tensors)",
-               "utils.random_one_hot returns some one-hot tensor of the requested shape (assumed)",
+               "utils.random_one_hot: draw number k of the generator tape is some one-hot tensor of the requested shape; invalid probabilities are rejected (assumed)",
                "inputs are one-hot with alphabet size >= 2, batch >= 1, length >= 1 (precondition of the property)"]
 TRUSTED = []
